@@ -125,7 +125,7 @@ def scenario_space(tier, seed, kinds=None, funcs=(False, True), cfis=("none",), 
         if pe and (gp or br1 or (tier == "quick" and (ann not in ("none", "block") or cfi not in ("none", "whole")))):
             continue                        # the file format is crossed with the main dimensions only (all of them in the thorough tier)
         shape = scen.Shape(kind, fn, cfi, ann, df, c2, br1, gp, pe)
-        singles = scen.single_edits(kind, patches)
+        singles = scen.single_edits(kind, [p_ for p_ in patches if p_ != "othersec" or df])
         for e in singles:
             yield shape, [e]
         if doubles and not (pe and tier == "quick"):
